@@ -1299,7 +1299,7 @@ PROPS = {
                              "code points U+0000..U+0003 are never generated (bytes 0..3 are unspecified)"]),
     "C14": dict(gen=gen_C14, needs=["harness"], sample_limit={"quick": 24, "thorough": 80}, sample_maxlen=600,
                 sample_filter=lambda c: not c.startswith("osched") or len(c) < 300,
-                rule="event log of the cfg(kmertools_verif) hooks while the library runs: mapped oligo writer with delimiters of length 0..5, header on/off, k 1..8, threads default/1..16, controlled and free schedules, and inputs larger than the reader's 8 KiB block with a record header exactly on / next to a block boundary (the sizing pre-pass against the record iterator); coverage with bin size / count from 1 and a k-mer whose multiplicity lands at the edge of and far beyond the last bin; counter with k to 31 and ceilings giving many partitions; k-mer CGR; every logged unchecked index must satisfy idx < len, every write_at pos + len <= mapping size, the mapped writes must tile the file exactly with no NUL byte left, and the numbers of writes and indexings must equal the model's prediction; the harness is a debug build, so std's own get_unchecked precondition checks abort on a violation as well; non-trivial = at least one index or write logged",
+                rule="event log of the cfg(kmertools_verif) hooks while the library runs: mapped oligo writer with delimiters of length 0..5, header on/off, k 1..8, threads default/1..16, controlled and free schedules, and inputs larger than the reader's 8 KiB block with a record header exactly on / next to a block boundary (the sizing pre-pass against the record iterator); coverage with bin size / count from 1 and a k-mer whose multiplicity lands at the edge of and far beyond the last bin; counter with k to 31 and ceilings giving many partitions; k-mer CGR; every logged unchecked index must satisfy idx < len, every write_at pos + len <= mapping size, the mapped writes must tile the file exactly with no NUL byte left, the (offset, length) of every write_at of the mapped oligo writer must be the model's layout (Proof/MappedBytes.v: header at 0, row n at |header| + n * row length - the layout the byte-level theorem is about), and the numbers of writes and indexings must equal the model's prediction; the harness is a debug build, so std's own get_unchecked precondition checks abort on a violation as well; non-trivial = at least one index or write logged",
                 nontrivial=lambda c, o: o.startswith("oob=0") and not o.endswith("writes=0|index=0") or "|" in o and c.startswith("osched"),
                 assumptions=["only the hooked sites are observed: an unsafe site without a hook is outside this check (the translator's inventory of unsafe sites is future work)",
                              "what the hardware does on an out-of-bounds write is not modelled: the check shows there is none"]),
